@@ -469,6 +469,8 @@ DESTS: dict[str, tuple] = {
     "null": (("0.0.0.0", 0), [], "null"),
     "ipv4-any-port-5": (("0.0.0.0", 5), [("0.0.0.0", 5)], "ipv4"),
     "null-by-resolution": (("null.example", 0), [], "after-resolution"),
+    # the IPv4-mapped spelling of the null address (leaves through the exit's dual-stack IPv6 socket)
+    "null-ipv4-mapped": (("::ffff:0.0.0.0", 0), [], "null"),
 }
 if NULL_HOST is not None:
     DESTS["null-by-numeric-host"] = ((NULL_HOST, 0), [], "after-resolution")
